@@ -77,5 +77,7 @@ void op_iolog (char **tok, int ntok) ;
 
 /* routes.c (C14) */
 int cmd_routes (void) ;
+/* ledger.c (C16) */
+void op_ledger (char **tok, int ntok) ;
 
 #endif
